@@ -410,7 +410,12 @@ def shrinks(sc):
                 new_pieces.append(n - prev)
         c['pieces'] = new_pieces
         return c
-    # drop characters
+    # drop blocks of characters (halves, quarters, ...) before single characters
+    size = len(text) // 2
+    while size >= 2:
+        for i in range(0, len(text), size):
+            yield with_text(text[:i] + text[i + size:])
+        size //= 2
     for i in range(len(text)):
         nt = text[:i] + text[i + 1:]
         yield with_text(nt)
